@@ -273,9 +273,9 @@ func bucket(n int) string {
 
 // ---- generator -----------------------------------------------------------------------------
 
-var paths = []string{"fmt", "os", "io", "a/b", "a/c", "z", "strings", "github.com/x/y", "a", "b", "fmt", "os", "m/n", "a/b/c", "é/x", "A", "0"}
+var paths = []string{"日本/語", "fmt", "os", "io", "a/b", "a/c", "z", "strings", "github.com/x/y", "a", "b", "fmt", "os", "m/n", "a/b/c", "é/x", "A", "0"}
 var names = []string{"", "", "", "", ".", "_", "f", "io2", "zz", "a", "b"}
-var trailing = []string{"", "", "", "", " // c1", " // c2", " /* c3 */", " // fmt", " /* a */ // b", " // z last"}
+var trailing = []string{" // комментарий", "", "", "", "", " // c1", " // c2", " /* c3 */", " // fmt", " /* a */ // b", " // z last"}
 
 func lit(r *vh.Rand, p string) string {
 	switch r.Intn(12) {
@@ -425,7 +425,15 @@ func main() {
 	}
 	r := vh.NewRand(f.Seed)
 	for i := 0; i < f.N; i++ {
-		run(genFile(r.Fork(i)), o)
+		rr := r.Fork(i)
+		src := genFile(rr)
+		if rr.Chance(50) {
+			if re := respell(rr, src); string(re) != string(src) {
+				o.Count("gen_respelled")
+				src = re
+			}
+		}
+		run(src, o)
 	}
 	keys := make([]string, 0)
 	for k := range o.Stats {
